@@ -983,6 +983,9 @@ pub struct Cell {
     pub rrdp_on: bool,
     pub rsync_on: bool,
     pub has_notify: bool,
+    /// For current and stale: the copy was last confirmed by a 304 answer
+    /// (rather than by the 200 answer that created it).
+    pub via_304: bool,
 }
 
 pub fn c29_cells() -> Vec<Cell> {
@@ -992,9 +995,15 @@ pub fn c29_cells() -> Vec<Cell> {
             for rrdp_on in [true, false] {
                 for rsync_on in [true, false] {
                     for has_notify in [true, false] {
-                        res.push(Cell {
-                            policy, outcome, rrdp_on, rsync_on, has_notify
-                        });
+                        for via_304 in [false, true] {
+                            if via_304 && outcome != 1 && outcome != 2 {
+                                continue
+                            }
+                            res.push(Cell {
+                                policy, outcome, rrdp_on, rsync_on,
+                                has_notify, via_304
+                            });
+                        }
                     }
                 }
             }
@@ -1018,8 +1027,9 @@ pub fn run_c29(index: usize, scratch: &Path) -> RunResult {
     let policy_name = ["never", "stale", "new"][cell.policy];
     let outcome_name = ["updated", "current", "stale", "unavailable"][cell.outcome];
     let desc = format!(
-        "policy {policy_name}, RRDP outcome {outcome_name}, rrdp {}, rsync {}, \
+        "policy {policy_name}, RRDP outcome {outcome_name}{}, rrdp {}, rsync {}, \
          CA {} rpkiNotify",
+        if cell.via_304 { " (copy last confirmed by a 304)" } else { "" },
         if cell.rrdp_on { "on" } else { "off" },
         if cell.rsync_on { "on" } else { "off" },
         if cell.has_notify { "with" } else { "without" },
@@ -1094,7 +1104,30 @@ pub fn run_c29(index: usize, scratch: &Path) -> RunResult {
                 message: "could not create the local copy".into(), step: 0
             });
         }
-        sim::clock::advance(if cell.outcome == 1 { 10 } else { 10 * 86400 });
+        let (first, second) = if cell.outcome == 1 { (10 * 86400, 10) }
+            else { (10, 10 * 86400) };
+        if cell.via_304 {
+            // A second run to which the server answers 304: this confirms
+            // the copy at that time.
+            sim::clock::advance(first);
+            let _ = http.take_log();
+            let collector = Collector::new(&config).expect("collector");
+            let run = collector.start();
+            let ok = matches!(
+                run.repository(&ca), Ok(Some(repo)) if repo.is_rrdp()
+            );
+            drop(run);
+            let got_304 = http.take_log().iter().any(|r| r.status == 304);
+            if cell.has_notify && !(ok && got_304) {
+                violations.push(Violation {
+                    property: "harness", class: "setup".into(),
+                    message: format!(
+                        "confirming run: ok {ok}, 304 seen {got_304}"
+                    ), step: 0
+                });
+            }
+        }
+        sim::clock::advance(second);
     }
     // The server state for the observed run.
     if cell.outcome == 0 {
